@@ -632,6 +632,22 @@ def run(ctx):
     if n13 == 0:
         r.vacuous_ok = True
 
+    # ---------------------------------------------------------------- R14
+    r = ctx.rule("C07-R14", "EXC", "'maps the text form of every int / float back': what a number is, is decided by the builtin conversion alone - the numeric converters raise only from "
+                 "the handler around it; no test of their own rejects a text before int() / float() has seen it (an own pattern knows fewer spellings than repr() produces: 1e-05, 1e+16, inf)", reference=2)
+    for fn in sorted(conv_fns, key=lambda f: f.name):
+        if fn.name == "parse_boolean" or fn.name == "parse_string":
+            continue
+        convs_ = [c for c in q.calls(fn) if isinstance(c.func, ast.Name) and (c.func.id in ("int", "float") or (fn.name, c.func.id) in _b)]
+        if not convs_:
+            continue
+        early = [rz for rz in q.raises(fn) if not any(isinstance(a, ast.ExceptHandler) for a in _anc(rz))]
+        if early:
+            r.fail(fn, early[0], "own rejection before the builtin conversion", "%s rejects a value by a test of its own (%s) instead of leaving the decision to %s: texts the builtin accepts - and repr() "
+                   "produces, such as '1e-05' or '1e+16' - no longer convert back" % (fn.short, norm(early[0])[:60], norm(convs_[0].func)))
+        else:
+            r.ok("%s: only the builtin conversion decides" % fn.short)
+
     # ---------------------------------------------------------------- R12
     r = ctx.rule("C07-R12", "KEY", "an alias is filed by what it is after its dash prefix was removed: the value whose length decides short / long is the value that is "
                  "validated and stored (with or without the dash prefix the same alias lands in the same list)", reference=1)
@@ -659,6 +675,13 @@ def run(ctx):
     if n12 == 0:
         r.vacuous_ok = True
     return ctx.results
+
+
+def _anc(n):
+    p_ = getattr(n, "_parent", None)
+    while p_ is not None:
+        yield p_
+        p_ = getattr(p_, "_parent", None)
 
 
 def _literal_table(fn, v, prm):
